@@ -225,21 +225,35 @@ func init() {
 			o.Positioner = []int{0, 1, 2, 4, 5, 6, 7, 8}[r.Intn(8)]
 			o.Router = []int{0, 1, 2}[r.Intn(3)]
 			c.Regime = pickRegime(r)
-			if r.Intn(5) > 0 {
-				heteroSizes(r, &o, ids, c.Regime, 120, 0.08)
-			} else {
+			switch r.Intn(5) {
+			case 0:
 				applySizes(r, &o, ids, r.Intn(sizeModes), c.Regime, 120)
+			case 1, 2:
+				// almost uniform sizes and small spacings: differences of a few units are where an absolute constant
+				// (a tolerance, a slack, a rounding) changes a decision at some scales only
+				base := float64(20 + r.Intn(100))
+				o.Sizes = map[string][2]float64{}
+				for _, id := range ids {
+					o.Sizes[id] = [2]float64{base + float64(r.Intn(9)) - 4, base/2 + float64(r.Intn(5))}
+				}
+			default:
+				heteroSizes(r, &o, ids, c.Regime, 120, 0.08)
 			}
 			o.NodeSpacing = spacingVal(r, c.Regime, true)
 			o.LayerSpacing = spacingVal(r, c.Regime, true)
+			if r.Intn(4) == 0 {
+				o.NodeSpacing = fptr(float64(1 + r.Intn(20)))
+			}
 			o.Virtual = r.Intn(3) == 0
 			c.Opts = o
 			all := []int{-3, -2, -1, 1, 2, 3, 4, 5, 6}
 			if tier == "thorough" {
 				c.Scales = all
 			} else {
-				r.Shuffle(len(all), func(i, j int) { all[i], all[j] = all[j], all[i] })
-				c.Scales = all[:4]
+				// the extreme factors always (a hidden absolute constant bites hardest there), plus two random others
+				mid := []int{-2, -1, 1, 2, 3, 4, 5}
+				r.Shuffle(len(mid), func(i, j int) { mid[i], mid[j] = mid[j], mid[i] })
+				c.Scales = []int{-3, 6, mid[0], mid[1]}
 				sort.Ints(c.Scales)
 			}
 			return c
